@@ -79,6 +79,15 @@ def chains(ctx, constants):
     ctx.notes["chain_cases"] = len(res.records)
 
 
+def paths_run(ctx, keep):
+    """the same three-segment path under a namespaced and under a plain root, as operands of every operator and bracket"""
+    res = tlc.run("MC_C05", constants={"MaxOps": 1, "Wide": "TRUE", "Paths": "TRUE"}, keep_lines=keep)
+    ctx.add_tlc(res)
+    if res.violation:
+        ctx.violation({"kind": "model", "inv": res.violation}, {"tlc": res.raw_tail[-2000:]})
+    check_records(ctx, res.records, "paths1")
+
+
 def run(ctx):
     ctx.rule = ("every expression tree with <= MaxOps operator/bracket nodes (derivation machine MC_C05); "
                 "plus left- and right-nested runs of up to 148 (quick) / 560 (thorough) operators (MC_C05_chain); "
@@ -95,6 +104,7 @@ def run(ctx):
             ctx.violation({"kind": "model", "inv": res.violation}, {"tlc": res.raw_tail[-2000:]})
         check_records(ctx, res.records, "wide2")
         validate_reductions(ctx, res.records, 4)
+        paths_run(ctx, keep)
         chains(ctx, {})
         ctx.exhaustive = True
     else:
@@ -107,6 +117,7 @@ def run(ctx):
         if res.violation:
             ctx.violation({"kind": "model", "inv": res.violation}, {"tlc": res.raw_tail[-2000:]})
         check_records(ctx, res.records, "narrow3")
+        paths_run(ctx, keep)
         chains(ctx, {"Lens1": "{1, 2, 16, 17, 18, 19, 33, 64, 100, 257, 520}", "Lens2": "{0, 1, 17, 18, 40}", "Mixed": "TRUE"})
         ctx.exhaustive = True
 
